@@ -1368,3 +1368,13 @@ package server
 //@ func (*Aof).loadRewriteAofFiles
 //@   trusted cut point: what a compaction copies is decided record by record in its literal (loadRewriteAofFiles$1), which is under contract
 //@   modifies all
+
+// C09: the follower's reader fills a ring of reusable record buffers and hands each to three bounded channels. A buffer
+// is filled again len(rbufs) records later; by then every consumer must be done with it, which holds when a channel
+// can keep fewer records waiting (its capacity, plus the one being processed and the one being sent) than the ring has
+// buffers. The argument about the goroutines is not proved here; the constructor's part of it is.
+//@ func NewReplicationClient
+//@   requires manager != nil && manager.slock != nil
+//@   loop#1 invariant 0 <= i
+//@   ensures C09.pool.outlasts-queues: result != nil && chancap(result.replayQueue) + 2 <= len(result.rbufs) && chancap(result.aofQueue) + 2 <= len(result.rbufs) && chancap(result.pushQueue) + 2 <= len(result.rbufs)
+//@   modifies all
